@@ -1,7 +1,12 @@
 #!/bin/sh
-# runs every claimed check (quick tier unless TIER=thorough) and prints one line each
-cd /verif
-for id in $(python3 -c "import json;print(' '.join(c['property_id'] for c in json.load(open('MANIFEST.json'))['checks']))"); do
-  out=$(bin/vcheck $id --tier ${TIER:-quick} 2>&1); rc=$?
-  echo "$id rc=$rc $(echo "$out" | grep -c '^VIOLATION') violations; $(echo "$out" | grep -c '^KNOWN-FINDING') known; $(echo "$out" | tail -1 | cut -c1-160)"
+# runs every claimed check (quick tier unless TIER=thorough) from the directory it is started in
+# (so that it also works inside a `vp run` snapshot) and prints one line each
+D=${VERIF_DIR:-$PWD}
+export VERIF_DIR=$D
+export GOFLAGS=-mod=mod GOPROXY=off GOSUMDB=off GOTOOLCHAIN=local
+if [ ! -x $D/bin/vcheck ] || [ -n "$REBUILD" ]; then (cd $D/engine && go build -o $D/bin/vcheck .) || exit 2; fi
+for id in ${CHECKS:-$(python3 -c "import json;print(' '.join(c['property_id'] for c in json.load(open('$D/MANIFEST.json'))['checks']))")}; do
+  out=$($D/bin/vcheck $id --tier ${TIER:-quick} 2>&1); rc=$?
+  echo "$id rc=$rc $(echo "$out" | grep -c '^VIOLATION') violations; $(echo "$out" | grep -c '^KNOWN-FINDING') known; $(echo "$out" | tail -1 | cut -c1-200)"
+  if [ $rc -ne 0 ]; then echo "$out" | grep -A3 '^VIOLATION\|^HARNESS' | cut -c1-600 | head -40; fi
 done
